@@ -1,5 +1,6 @@
 import Cfi.Line
 import Cfi.World
+import Proofs.ContainerFrame
 /-! C14 — property theorems (the value slots of shared `Field` objects are
 scratch: what a line writes does not depend on them; World-level locality
 theorems are added in `Props/C14` as the model grows). -/
@@ -202,5 +203,41 @@ theorem file_noninterference (ops : List Op) (g : Nat) :
 theorem new_files_independent (w : World) (f g : Nat) (h : f ≠ g) (i : Nat) :
     (run w [.newFile f, .newFile g, .fileAppend f i]).files g = some [] := by
   simp [run, step, upd, h, Ne.symm h]
+
+end Props.C14
+
+/-! ### containers of different files never disturb each other -/
+namespace Props.C14
+open Cfi.Container
+
+/-- **Two containers, one element store.** The `previous` / `next` links live on the elements;
+each container has its own first / last. If container `A` represents the list `lA`, container `B`
+(ends `rB`, `hB`) represents `lB`, and they have no member in common, then after ANY admissible
+history of operations on `A` that brings in no member of `B`: `A` represents `lA` subjected to the
+history and `B` still represents `lB` — iteration, length, first, last, every neighbour link.
+Elements outside both containers may carry any links whatever (an element removed from `B`
+earlier keeps the links it had then and may be among those `A` takes in): `Repr` constrains
+members only. -/
+theorem containers_independent {s : Heap} {lA lB : List Id} {rB hB : Id} {ops : List Op}
+    (hA : Repr s lA) (hBr : Repr (withEnds s rB hB) lB) (hok : HistOk lA ops = true)
+    (hsep : ∀ x ∈ lB, x ∉ lA ∧ ∀ op ∈ ops, op.new? ≠ some x) (k : Nat) :
+    iter (run s ops) ((specRun lA ops).length + k) = specRun lA ops ∧
+    iter (withEnds (run s ops) rB hB) (lB.length + k) = lB ∧
+    iterBack (withEnds (run s ops) rB hB) (lB.length + k) = lB.reverse := by
+  obtain ⟨h1, h2⟩ := run_frame hA hBr hok hsep
+  exact ⟨h1.iter_eq k, h2.iter_eq k, h2.iterBack_eq k⟩
+
+/-- non-vacuity, the history of seeded change C14-p: `A = [0, 1, 2]` loses `2`, gets `3` in its
+place; `2` — which still points back at `1` — is then appended to `B = [10]`. On the model of the
+(unchanged) code `A` stays `[0, 1, 3]` and `B` becomes `[10, 2]` -/
+example :
+    let a0 := run (init 0) [.append 1, .append 2]
+    let a1 := run a0 [.remove 2, .append 3]
+    -- `B` is built over the same links: `10` alone, then `2` appended through `B`'s ends
+    let b := withEnds a1 10 10
+    let b1 := step b (.append 2)
+    iter (withEnds b1 a1.root a1.head) 10 = [0, 1, 3] ∧ iter b1 10 = [10, 2] ∧
+    iterBack (withEnds b1 a1.root a1.head) 10 = [3, 1, 0] := by
+  decide
 
 end Props.C14
